@@ -57,6 +57,25 @@ fn inputs() -> Vec<Vec<u8>> {
     vec![vec![], b"x".to_vec(), s[0].clone(), s[1..6].concat(), s[..40].concat(), (0..3000u32).map(|i| (i.wrapping_mul(2654435761) >> 24) as u8).collect()]
 }
 
+/// inputs that embed the first / last n bytes of a dictionary's content, so that compressors emit matches at the
+/// largest and smallest legal dictionary offsets
+fn dict_inputs(d: &DictCase) -> Vec<Vec<u8>> {
+    let c = &d.model.content;
+    let mut v = vec![];
+    for n in [16usize, 64, 300, 1000] {
+        if c.len() >= n {
+            for lead in [0usize, 1, 12] {
+                let mut x: Vec<u8> = (0..lead).map(|i| 0xF0 + i as u8).collect();
+                x.extend_from_slice(&c[..n]);
+                x.extend_from_slice(b" -- tail -- ");
+                x.extend_from_slice(&c[c.len() - n..]);
+                v.push(x);
+            }
+        }
+    }
+    v
+}
+
 /// decode `frame` with the crate, the dictionary registered; `force` = frame carries no id
 pub fn crate_decode(dec: &mut FrameDecoder, frame: &[u8], force: Option<u32>, limit: usize) -> Result<Vec<u8>, String> {
     match guarded(|| -> Result<Vec<u8>, String> {
@@ -90,11 +109,13 @@ pub fn crate_decode(dec: &mut FrameDecoder, frame: &[u8], force: Option<u32>, li
 
 fn reference_matrix(run: &mut Run, dicts: &[DictCase], tier: Tier) {
     let th = meter::threads();
-    let ins = inputs();
+    let base_inputs = inputs();
+    let per_dict: Vec<Vec<Vec<u8>>> = dicts.iter().map(|d| base_inputs.iter().cloned().chain(dict_inputs(d)).collect()).collect();
     let mut cases = vec![];
     for di in 0..dicts.len() {
-        for level in tier.pick(vec![1, 3, 9], vec![-3, 1, 3, 9, 15]) {
-            for wl in [None, Some(10u32), Some(17)] {
+        let ins = &per_dict[di];
+        for level in tier.pick(vec![-3, 1, 3, 6, 9, 11, 12, 15], vec![-5, -3, 1, 2, 3, 4, 5, 6, 7, 8, 9, 10, 11, 12, 13, 15, 17, 19]) {
+            for wl in [None, Some(10u32), Some(14), Some(17), Some(22)] {
                 for idflag in [true, false] {
                     for ii in 0..ins.len() {
                         cases.push((di, level, wl, idflag, ii));
@@ -106,6 +127,7 @@ fn reference_matrix(run: &mut Run, dicts: &[DictCase], tier: Tier) {
     let accs = meter::par_fold(cases.len(), th, Acc::default, |a, k| {
         let (di, level, wl, idflag, ii) = cases[k];
         let d = &dicts[di];
+        let ins = &per_dict[di];
         a.evals += 1;
         let p = refz::CParams { level, window_log: wl, checksum: k % 2 == 0, content_size: k % 3 == 0, dict_id: idflag, ..Default::default() };
         let Ok(frame) = refz::compress(&ins[ii], &p, Some(&d.raw)) else {
